@@ -1121,8 +1121,13 @@ func (pl *inlPlan) renderWith(a, b token.Pos, named []string, keepReturns bool, 
 		}
 	}
 	out := string(applySrcEdits([]byte(hfc.text(a, b)), es))
-	// falling off the end of a helper without results
-	if tail := deferCalls(b); tail != "" {
+	// falling off the end of a helper without results (a helper with results always leaves through a
+	// return, and so does one whose last statement is a return)
+	lastIsReturn := false
+	if n := len(pl.h.f.Body.List); n > 0 {
+		_, lastIsReturn = pl.h.f.Body.List[n-1].(*ast.ReturnStmt)
+	}
+	if tail := deferCalls(b); tail != "" && len(pl.rvars) == 0 && !lastIsReturn && b == pl.h.f.Body.Rbrace {
 		out += "\n" + tail + "\n"
 	}
 	return out
